@@ -38,8 +38,8 @@ def main():
     sh("git checkout -- . && git clean -fdq -e OUT", cwd=wt)
     os.makedirs(os.path.join(wt, "tests"), exist_ok=True)
     shutil.copy(demo, os.path.join(wt, "tests", "demo.rs"))
-    rc, o = sh("cargo test --offline --test demo 2>&1 | tail -15", cwd=wt)
-    clean_pass = "test result: ok" in o
+    rc, o = sh("cargo test --offline --test demo > demo_out.txt 2>&1; echo EXIT=$?; tail -15 demo_out.txt", cwd=wt)
+    clean_pass = "EXIT=0" in o
     meta["demo_passes_on_clean_tree"] = clean_pass
     os.remove(os.path.join(wt, "tests", "demo.rs"))
     rc, o = sh("git apply %s" % patch, cwd=wt)
@@ -49,8 +49,8 @@ def main():
     meta["suite_passes_with_patch"] = suite_ok
     meta["suite_summary"] = o.strip().splitlines()[:4]
     shutil.copy(demo, os.path.join(wt, "tests", "demo.rs"))
-    rc, o = sh("cargo test --offline --test demo 2>&1 | tail -25", cwd=wt)
-    meta["demo_fails_with_patch"] = "FAILED" in o or "panicked" in o
+    rc, o = sh("cargo test --offline --test demo > demo_out.txt 2>&1; echo EXIT=$?; tail -25 demo_out.txt", cwd=wt)
+    meta["demo_fails_with_patch"] = "EXIT=0" not in o
     meta["demo_output_tail"] = o.strip().splitlines()[-8:]
     sh("git checkout -- . && git clean -fdq -e OUT", cwd=wt)
     ok = clean_pass and meta["patch_applies"] and suite_ok and meta["demo_fails_with_patch"]
